@@ -90,18 +90,19 @@ def tuple_suffix(a, b):
 
 
 class State(object):
-    __slots__ = ('bfull', 'bexact', 'usuf', 'uexact', 'locs', 'seeked')
+    __slots__ = ('bfull', 'bexact', 'usuf', 'uexact', 'locs', 'seeked', 'urep')
 
-    def __init__(self, bfull=(), bexact=None, usuf=(), uexact=None, locs=(), seeked=()):
+    def __init__(self, bfull=(), bexact=None, usuf=(), uexact=None, locs=(), seeked=(), urep=None):
         self.bfull = bfull
         self.bexact = bexact
         self.usuf = usuf
         self.uexact = uexact
         self.locs = locs          # tuple of (name, value) sorted
         self.seeked = seeked      # tuple of store names whose position is not at the end
+        self.urep = urep          # name of a caller-supplied value the search buffer was REPLACED with (fresh + write)
 
     def key(self):
-        return (self.bfull, self.bexact, self.usuf, self.uexact, self.locs, self.seeked)
+        return (self.bfull, self.bexact, self.usuf, self.uexact, self.locs, self.seeked, self.urep)
 
     def __hash__(self):
         return hash(self.key())
@@ -110,7 +111,7 @@ class State(object):
         return self.key() == o.key()
 
     def copy(self, **kw):
-        s = State(self.bfull, self.bexact, self.usuf, self.uexact, self.locs, self.seeked)
+        s = State(self.bfull, self.bexact, self.usuf, self.uexact, self.locs, self.seeked, self.urep)
         for k, v in kw.items():
             setattr(s, k, v)
         return s
@@ -332,7 +333,7 @@ class StoreAnalysis(object):
             if ev.store == '_before':
                 return st.copy(bfull=None, bexact=() if fresh else None,
                                seeked=tuple(x for x in st.seeked if x != '_before'))
-            return st.copy(usuf=None, uexact=() if fresh else None,
+            return st.copy(usuf=None, uexact=() if fresh else None, urep=None,
                            seeked=tuple(x for x in st.seeked if x != '_buffer'))
         if k == 'write':
             self.writes.append(ev)
@@ -348,11 +349,15 @@ class StoreAnalysis(object):
                     raise AnalysisError('store typestate: unbounded appends in %s' % self.fi.qual)
                 return st.copy(bfull=bfull, bexact=bexact)
             uexact = st.uexact + (text,) if st.uexact is not None else None
+            urep = st.urep
             if st.uexact == ():
                 if v[0] == 'S':
                     usuf = v[1]
                 elif v[0] == 'SYM':
                     usuf = ('*', v[1])
+                    # replaced by a value that does not come from the pending text: a parameter of this function
+                    if v[1] in self.fi.params and (st.bfull is None or v[1] not in st.bfull):
+                        urep = v[1]
                 elif v[0] == 'X' and v[1] == ():
                     usuf = None
                     uexact = ()
@@ -364,7 +369,7 @@ class StoreAnalysis(object):
                     raise AnalysisError('store typestate: unbounded appends in %s' % self.fi.qual)
             else:
                 usuf = None
-            return st.copy(usuf=usuf, uexact=uexact)
+            return st.copy(usuf=usuf, uexact=uexact, urep=urep)
         if k == 'alias':
             self.problem(ev.node, 'inv-aliased-stores',
                          'both stores are bound to the SAME buffer object: every chunk appended to _before and then to '
@@ -475,6 +480,10 @@ class StoreAnalysis(object):
                 if not ok:
                     self.problem(self.fi.node, 'inv-at-exit',
                                  'a path reaches the function %s with the stores out of step: %s' % (what, why))
+                elif st.urep and st.bexact is None:
+                    self.problem(self.fi.node, 'one-sided-clear',
+                                 'a path replaces the search buffer with the caller-supplied %s but only appends to / keeps the untrimmed '
+                                 'pending text in _before: the old pending text is not replaced (it reappears in a later before)' % st.urep)
                 elif st.uexact == () and st.bexact != ():
                     # D8: one-sided clear
                     self.problem(self.fi.node, 'one-sided-clear',
